@@ -1087,12 +1087,13 @@ def gen_ienv(rng, idx):
     herm = rng.random() < 0.6
     A = C.gen_terms(rng, kind, 4 * L, conserve, False, herm, rng.randint(1, 3) if not herm else rng.randint(1, 2), maxrange=maxr, cell=L)
     psi_L = L * rng.choice([1, 2])
-    if conserve is not None and L == 1 and psi_L == 1:
-        psi_L = 2                    # (a charged product state that can be entangled)
+    ent = [0, 3, 4][idx % 3] if idx % 7 else 0
+    if ent and psi_L == 1:
+        psi_L = 2                    # (random two-site unitaries need two sites)
     return {'kind': 'ext', 'sub': 'ienv', 'site': {'type': kind, 'conserve': conserve}, 'L': L, 'N': 4 if L == 1 else 6, 'seed': 61000 + idx,
             'A': {'terms': A, 'form': ['graph', 'sum', 'neg'][idx % 3], 'split': 1, 'range': rng.choice(['known', 'known', 'none', 'inf']), 'how': 'ctor',
                   'plus_hc': flag},
-            'psi_L': psi_L, 'state': {'charged': conserve is not None}, 'entangle': [0, 3, 4][idx % 3] if idx % 7 else 0, 'reach': maxr,
+            'psi_L': psi_L, 'state': {'charged': conserve is not None}, 'entangle': ent, 'reach': maxr,
             'start_env_sites': rng.choice([1, 2]) * L}
 
 
@@ -1162,6 +1163,8 @@ def check_ienv(ctx, case, r):
                 if abs(cz(r[q]) - dens) > tol_ * scale:
                     probs.append(('C11:ienv:' + q, '%s: %s = %s, density from the reduced state of %d sites = %s' % (desc, q, r[q], n_th, dens)))
         for q in ('TM_Es', 'iter_Es'):
+            if q == 'iter_Es' and (flag or maxdiff(ref, ref.conj().T) > TOL * scale):
+                continue        # (the iterative builder works on the stored tensors and takes the real part of the energy: Hamiltonians without the flag)
             for x in r.get(q, []):
                 tag('ienv:' + q)
                 if abs(cz(x) - dens) > 1e-7 * scale:
@@ -1169,18 +1172,22 @@ def check_ienv(ctx, case, r):
                                   % (desc, q, {'TM_Es': 'MPOTransferMatrix.find_init_LP_RP(calc_E=True)', 'iter_Es': 'MPOEnvironmentBuilder.init_LP_RP_iterative(calc_E=True)'}[q],
                                      x, dens)))
                     break
-        # converged environments: moving the cut by one site adds the terms ending there; over a full period the value is periodic,
-        # successive values differ by the local energies, whose sum over the period is period * density
+        # converged environments (LP[IdR] / RP[IdL] are fixed up to a multiple of the identity only): full_contraction(i) with i < period - 1
+        # contracts one period more than full_contraction(period - 1), the difference is period * density whatever the gauge
+        herm = maxdiff(ref, ref.conj().T) <= TOL * scale
         for meth in ('iter', 'TM', 'None'):
             fc = r.get('full_contraction/' + meth)
-            if fc is None:
+            if fc is None or per < 2:
                 continue
+            if meth == 'iter' and not herm:
+                continue        # (MPOEnvironmentBuilder takes the real part of the energy per site: Hamiltonians only)
             tag('ienv:MPOEnvironment:force_init_method=' + meth)
-            ref_fc = r.get('full_contraction/TM') or r.get('full_contraction/iter')
-            if ref_fc is not None and max(abs(cz(a_) - cz(b_)) for a_, b_ in zip(fc, ref_fc)) > 1e-6 * scale:
-                probs.append(('C11:ienv:MPOEnvironment:init-methods-disagree', '%s: full_contraction with force_init_method=%s is %s, with the transfer matrix %s'
-                              % (desc, meth, fc, ref_fc)))
-    if 'full_contraction/start' in r and 'theta_start' in mats:
+            vals = [cz(x) for x in fc]
+            if max(abs(v_ - vals[0]) for v_ in vals[:per - 1]) > 1e-7 * scale * max(1.0, abs(vals[0])) or \
+                    abs(vals[0] - vals[per - 1] - per * dens) > 1e-7 * scale * max(1.0, abs(vals[0])):
+                probs.append(('C11:ienv:MPOEnvironment:converged-environments', '%s: MPOEnvironment(force_init_method=%s).full_contraction(i) = %s for i < %d; '
+                              'differences must be 0 and (first - last) = period * density = %s' % (desc, meth, fc, per, per * dens)))
+    if 'full_contraction/start' in r and 'theta_start' in mats and per >= 2:
         k = case['start_env_sites']
         tag('ienv:MPOEnvironment:start_env_sites')
         want = window_value(mats['theta_start'], -k, case['A']['terms'])
@@ -1197,4 +1204,193 @@ def check_ienv(ctx, case, r):
     for nm, e in r['errors'].items():
         probs.append(('C11:ienv:raises:' + nm.split(':')[0], '%s: %s raised %s' % (desc, nm, e)))
     ctx.count(stream, case, nontrivial=float(np.max(np.abs(ref))) > 1e-9, sample={'L': L, 'site': case['site'], 'psi_L': case['psi_L'], 'chi': r.get('psi_chi')})
+    report(ctx, case, stream, probs)
+
+
+# ------------------------------------------------------------------------------------------
+# sub 'opts': documented options and refusals of single routines
+# ------------------------------------------------------------------------------------------
+REFUSALS = {
+    'make_U:unknown-approximation': 'ValueError', 'make_U_I:explicit_plus_hc': 'NotImplementedError', 'make_U_II:explicit_plus_hc': 'NotImplementedError',
+    'variance:explicit_plus_hc': 'NotImplementedError', 'variance:infinite': 'ValueError', 'plus_identity:infinite': 'NotImplementedError',
+    'plus_identity:explicit_plus_hc': 'NotImplementedError', 'plus_identity:sites-outside': 'ValueError', 'plus_identity:sites-non-contiguous': 'NotImplementedError',
+    'apply:unknown-method': 'ValueError', 'apply_naively:bc-mismatch': 'ValueError', 'apply_naively:explicit_plus_hc': 'NotImplementedError',
+    'apply_zipup:infinite': 'ValueError', 'apply_zipup:explicit_plus_hc': 'NotImplementedError', 'overlap:finite-vs-infinite': 'ValueError',
+    'add:different-flags': 'ValueError', 'from_Wflat:wrong-length': 'ValueError', 'MPO:IdL-wrong-length': 'ValueError',
+    'expectation_value_TM:finite-psi': 'ValueError', 'expectation_value_power:finite-psi': 'ValueError', 'enlarge_mps_unit_cell:factor-1': 'ValueError',
+    'enlarge_mps_unit_cell:non-integer': 'ValueError', 'enlarge_mps_unit_cell:finite': 'ValueError', 'MPOTransferMatrix:finite': 'ValueError'}
+K_POWER_L1 = 'C11:expectation_value_power:single-site-unit-cell:max_range=1:UnboundLocalError'
+OPTS_VARIANTS = ['expdecay', 'is_equal_eps', 'refusals', 'expdecay', 'is_equal_eps']
+
+
+def distinct_terms(rng, kind, n, conserve, nt, maxr, big=True):
+    """terms on distinct sites with pairwise different words; coefficient magnitudes either >= 0.5 or <= 0.05"""
+    out, seen = [], set()
+    for _ in range(60):
+        t = C.gen_term(rng, kind, n, conserve, False, maxr, None)
+        if len(set(k for _, k in t)) < len(t):
+            continue
+        w = tuple(sorted((k, o_) for o_, k in t))
+        if w in seen:
+            continue
+        seen.add(w)
+        mag = rng.uniform(0.5, 1.5) if (big or rng.random() < 0.6) else rng.uniform(0.01, 0.05)
+        out.append([t, [round(mag * rng.choice([-1, 1]), 4), 0.0]])
+        if len(out) == nt:
+            break
+    return out
+
+
+def gen_opts(rng, idx):
+    v = OPTS_VARIANTS[idx % len(OPTS_VARIANTS)]
+    case = {'kind': 'ext', 'sub': 'opts', 'variant': v, 'seed': 71000 + idx}
+    if v == 'refusals':
+        L = 3
+        terms = [[[['Sp', 0], ['Sm', 1]], [1.0, 0.5]], [[['Sz', 1], ['Sz', 2]], [0.7, 0]]]
+        case.update({'site': {'type': 'SpinHalf', 'conserve': None}, 'L': L, 'terms': terms, 'terms_inf': [[[['Sz', 0], ['Sz', 1]], [1.0, 0]]]})
+    elif v == 'expdecay':
+        conserve = [None, 'Sz'][(idx // 5) % 2]
+        L = rng.choice([1, 2])
+        # (operators that are elements of the operator basis of to_TermList, so that `cutoff` acts on the strengths themselves)
+        a, b, h_ = ('Sz', 'Sz', 'Sz') if conserve else rng.choice([('Sz', 'Sz', 'Sz'), ('Sp', 'Sm', 'Sz'), ('Sm', 'Sp', 'Sz'), ('Sz', 'Sz', 'Sp')])
+        lam = rng.choice([0.5, 0.7])
+        q = rng.randint(1, 3)
+        case.update({'site': {'type': 'SpinHalf', 'conserve': conserve}, 'L': L, 'lam': lam, 'opa': a, 'opb': b, 'oph': h_, 'h': [round(rng.uniform(0.5, 1.0), 3), 0.0],
+                     'range': ['none', 'inf'][(idx // 10) % 2], 'psi_L': L * rng.choice([1, 2]), 'state': {'charged': conserve is not None}, 'short': rng.choice([1, 2]),
+                     'ttl_range': rng.randint(3, 6), 'cutoff': lam ** (q + 0.5), 'q': q,
+                     'prefactors': [[0, [a] + ['Id'] * n_ + [b]] for n_ in range(0, 3)] + [[rng.randint(0, 3), [h_]]]})
+    else:
+        kind = rng.choice(['SpinHalf', 'Fermion'])
+        conserve = rng.choice([None, 'Sz' if kind == 'SpinHalf' else 'N'])
+        L = rng.choice([3, 4])
+        A = distinct_terms(rng, kind, L, conserve, rng.randint(2, 4), L - 1, big=False)
+        if not any(abs(st[0]) >= 0.5 for _, st in A):
+            A[0][1][0] = 0.8
+        # Hermitian part + a small non-Hermitian perturbation of chosen relative size
+        Ah = A + C.hc_terms(kind, A)
+        delta = rng.choice([1e-4, 3e-2])
+        k = rng.randrange(len(A))
+        B = copy.deepcopy(Ah)
+        B[k] = [B[k][0], [B[k][1][0] * (1 + delta), B[k][1][1]]]
+        case.update({'site': {'type': kind, 'conserve': conserve}, 'L': L, 'N': L, 'bc': 'finite', 'terms': Ah, 'terms_b': B, 'eps': [1e-10, 1e-5, 0.05],
+                     'cutoff': 0.2, 'A_half': A})
+    return case
+
+
+def check_opts(ctx, case, r):
+    stream = 'ext_opts'
+    if 'runner_error' in r:
+        ctx.fail('correspondence', 'runner failed: ' + r['runner_error'][-600:], label(case, stream))
+        return
+    ops, mats = C.load(r)
+    L = case['L']
+    probs = []
+    v = case['variant']
+    if v == 'refusals':
+        for nm, want in REFUSALS.items():
+            got = r['refusals'].get(nm)
+            tag('refusal:' + nm)
+            if got != want:
+                probs.append(('C11:refusal:' + nm, 'documented refusal %s: expected %s, the call %s' % (nm, want, got)))
+    elif v == 'expdecay':
+        lam = case['lam']
+        Lp = len(r['state'])
+        vec = lambda k: np.array([cz(x) for x in r['state'][k % Lp]])
+        ev = lambda name, k: np.vdot(vec(k), ops[name] @ vec(k))
+        per = int(np.lcm(L, Lp))
+        h_ = cz(case['h'])
+
+        def density(rmax):
+            return sum(h_ * ev(case['oph'], i) + sum(lam ** (rr - 1) * ev(case['opa'], i) * ev(case['opb'], i + rr) for rr in range(1, rmax + 1)) for i in range(per)) / per
+        dens = density(400)
+        desc = 'iMPO sum_{i<j} %.1f^(j-i-1) %s_i %s_j + %s %s_i (from_grids, L=%d, max_range %s) in a product iMPS with unit cell %d' % (
+            lam, case['opa'], case['opb'], case['h'][0], case['oph'], L, case['range'], Lp)
+        tag('expdecay', 'expdecay:max_range=' + case['range'], 'expectation_value:max_range-None-or-large->TM')
+        for q in ('expectation_value', 'expectation_value_TM', 'expectation_value_power'):
+            if q in r and abs(cz(r[q]) - dens) > 1e-7:
+                probs.append(('C11:expdecay:' + q, '%s: %s = %s, exact density %s' % (desc, q, r[q], dens)))
+        e_ = r['errors'].pop('expectation_value_power:short', None)
+        if e_ is not None:
+            key_ = K_POWER_L1 if ('UnboundLocalError' in e_ and per == 1 and case['short'] == 1) else 'C11:expdecay:power:raises'
+            probs.append((key_, '%s: expectation_value_power(max_range=%d) raised %s' % (desc, case['short'], e_)))
+        if 'power_short' in r:
+            tag('expectation_value_power:tolerance-not-reached-warning')
+            if not r['power_short_warned']:
+                probs.append(('C11:expdecay:power:no-warning', '%s: expectation_value_power(max_range=%d) did not warn that the tolerance is not reached' % (desc, case['short'])))
+            # documented: "Contract at most self.L * max_range sites": terms starting in the first (common) unit cell up to that many sites
+            nmax = max(case['short'], 1) * per
+            part = sum(h_ * ev(case['oph'], i) + sum(lam ** (rr - 1) * ev(case['opa'], i) * ev(case['opb'], i + rr) for rr in range(1, nmax - i)) for i in range(per)) / per
+            if abs(cz(r['power_short']) - part) > 1e-9:
+                probs.append(('C11:expdecay:power:truncated-sum', '%s: expectation_value_power(max_range=%d) = %s, the terms inside the %d contracted sites give %s'
+                              % (desc, case['short'], r['power_short'], nmax, part)))
+        if 'is_hermitian' in r:
+            herm = case['opa'] == 'Sz' and case['opb'] == 'Sz' and case['oph'] == 'Sz'
+            if r['is_hermitian'] != herm:
+                probs.append(('C11:expdecay:is_hermitian', '%s: is_hermitian() is %s' % (desc, r['is_hermitian'])))
+        if 'to_TermList' in r:
+            tag('to_TermList:option:cutoff', 'to_TermList:option:max_range', 'to_TermList:infinite-range-MPO')
+            want = []
+            for i in range(L):
+                want.append([[[case['oph'], i]], case['h']])
+                for rr in range(1, case['ttl_range'] + 1):
+                    if rr - 1 <= case['q']:
+                        want.append([[[case['opa'], i], [case['opb'], i + rr]], [lam ** (rr - 1), 0.0]])
+            nw = L * ((case['ttl_range'] + L) // L + 1)
+            dw = make_dense(r, ops, L, nw, False)
+            T = C.tl_tensor_dense(dw, r['to_TermList'], cell=L)
+            Wd = C.dense_terms_fast(dw, want, infinite_cell=L)
+            longest = max([max(k for _, k in t) - min(k for _, k in t) for t, _ in r['to_TermList']] + [0])
+            if maxdiff(T, Wd) > 1e-9:
+                probs.append(('C11:expdecay:to_TermList', '%s: to_TermList(max_range=%d, cutoff=%.3g) (longest term %d, %d terms) differs from the terms with range <= %d '
+                              'and strength >= cutoff by %.3e' % (desc, case['ttl_range'], case['cutoff'], longest, len(r['to_TermList']),
+                                                                   min(case['ttl_range'], case['q'] + 1), maxdiff(T, Wd))))
+        if 'prefactor' in r:
+            for (i, ops_), got in zip(case['prefactors'], r['prefactor']):
+                want = h_ if len(ops_) == 1 else lam ** (len(ops_) - 2)
+                if len(ops_) == 1 and case['oph'] in (case['opa'], case['opb']):
+                    continue
+                tag('prefactor:infinite-range-MPO')
+                if abs(cz(got) - want) > 1e-9:
+                    probs.append(('C11:expdecay:prefactor', '%s: prefactor(%d, %s) = %s, expected %s' % (desc, i, ops_, got, want)))
+    else:
+        d = make_dense(r, ops, L, L, True)
+        A = C.dense_terms_fast(d, case['terms'])
+        B = C.dense_terms_fast(d, case['terms_b'])
+        desc = 'finite %s MPOs (L=%d, %s) A (Hermitian) and B = A with one coefficient changed' % (case['site']['type'], L, case['site']['conserve'])
+        if maxdiff(mats['W/A'], A) > TOL * 10 or maxdiff(mats['W/B'], B) > TOL * 10:
+            probs.append(('C11:opts:operand', '%s: W tensors differ from the terms' % desc))
+        nA, nB = float(np.sum(np.abs(A) ** 2)), float(np.sum(np.abs(B) ** 2))
+        rel = float(np.sum(np.abs(A - B) ** 2)) / (nA + nB)
+        relh = float(np.sum(np.abs(B - B.conj().T) ** 2)) / (2 * nB)
+        for eps in case['eps']:
+            tag('is_equal:eps-option', 'is_hermitian:eps-option')
+            # documented: abs(<A|A> + <B|B> - 2 Re <A|B>) < eps * (<A|A> + <B|B>)
+            for got, x, what in ((r['is_equal'].get('%g' % eps), rel, 'is_equal(eps=%g)' % eps), (r['is_hermitian'].get('%g' % eps), relh, 'B.is_hermitian(eps=%g)' % eps)):
+                if got is None or 0.5 * eps < x < 2 * eps:
+                    continue
+                gl = got if isinstance(got, list) else [got]
+                if any(g_ != (x <= eps) for g_ in gl):
+                    probs.append(('C11:opts:eps', '%s: %s = %s, relative squared distance %.3e' % (desc, what, got, x)))
+        if 'to_TermList_default' in r:
+            tag('to_TermList:option:ignore-default')
+            if case['site']['type'] == 'SpinHalf':
+                T = C.tl_tensor_dense(d, r['to_TermList_default'])
+                if maxdiff(T, A) > TOL * 10:
+                    probs.append(('C11:opts:to_TermList:default-ignore', '%s: the terms of to_TermList() with the default `ignore` differ from A by %.3e' % (desc, maxdiff(T, A))))
+        words = {}
+        for t, st in case['terms']:
+            w_ = tuple(sorted((k, o_) for o_, k in t))
+            words[w_] = words.get(w_, 0) + cz(st)
+        clear = case['site']['type'] == 'SpinHalf' and all(abs(x) >= 0.5 or abs(x) <= 0.11 for x in words.values())
+        if 'to_TermList_cutoff' in r and clear:
+            tag('to_TermList:option:cutoff')
+            keep = [[[[o_, k] for k, o_ in w_], [x.real, x.imag]] for w_, x in words.items() if abs(x) >= case['cutoff']]
+            T = C.tl_tensor_dense(d, r['to_TermList_cutoff'])
+            want = C.dense_terms_fast(d, keep)
+            if maxdiff(T, want) > TOL * 10:
+                probs.append(('C11:opts:to_TermList:cutoff', '%s: to_TermList(cutoff=%s) differs from the terms with |strength| >= cutoff by %.3e (terms %s)'
+                              % (desc, case['cutoff'], maxdiff(T, want), case['terms'])))
+    for nm, e in r['errors'].items():
+        probs.append(('C11:opts:raises:' + nm.split(':')[0], '%s: %s raised %s' % (v, nm, e)))
+    ctx.count(stream, case, nontrivial=True, sample={'variant': v, 'L': L})
     report(ctx, case, stream, probs)
